@@ -119,7 +119,11 @@ func (g *Gateway) setSendReceiveBuffers(conn net.Conn) error {
 	if !valConn.IsValid() {
 		return errors.New("cannot find conn field")
 	}
-	valConn = valConn.Elem().Elem()
+	// a tls.Conn holds the connection in an interface; a plain *net.TCPConn
+	// (TLS terminated elsewhere) embeds it directly
+	if valConn.Kind() == reflect.Interface {
+		valConn = valConn.Elem().Elem()
+	}
 
 	// net.FD
 	ptrNetFd := valConn.FieldByName("fd")
